@@ -94,7 +94,11 @@ func genMarkupLineAt(tp *Tape, id string, allowFail, idLast bool) (string, bool)
 				`[ordinal value=2 one="%st" two="%nd" few="%rd" other="%th"]o[/]`,
 				`[ordinal one="%st"]z[/]`,
 				`[nomarkup]n[/]`,
-			}[tp.Int(0, 12, "repl")])
+				// a case the value selects is missing, and the cases that are there are not a leading run
+				`[plural value=3 one="a" two="b" other="c" /]`,
+				`[ordinal value=2 one="x" few="y" other="z" /]`,
+				`[plural value=1 two="b" many="m" /]`,
+			}[tp.Int(0, 15, "repl")])
 		case 7:
 			sb.WriteString([]string{": ", ":", " : "}[tp.Int(0, 2, "colon")])
 		}
